@@ -176,6 +176,16 @@ CLAIMED = {
          "a reload over all reachable states is NOT decided.",
     technique="writer/reader agreement on AST templates + CFG guards on the comment plumbing",
     ref="4/C11"),
+ "C06": dict(
+    text="F1 the renderer writes the require command (built from the whole `requires` list) before the first filter and `requires` is append-only; "
+         "F2 every construction site of a command whose table entry has an extension (or whose name is not constant) is followed on every path by "
+         "the matching require; F3 the factory's tag->extension derivation is table-driven and covers `extension` and `extension_values`; F4 every "
+         "tag checked with check_extension=False is preceded by that derivation for the same command and tag; F5a every user value reaching a "
+         "string / string-list argument passes a quoting wrapper of the factory; F5b every quoting wrapper escapes backslash before double quote; F6 "
+         "a possibly-list value is not used as a dictionary key. Necessary conditions over the product of kinds x tags x values; the parser's "
+         "verdict on the rendered text is NOT decided.",
+    technique="cross-table agreement (factory vs command tables) + CFG post-dominance of require calls + def-use from user values to quoting wrappers",
+    ref="4/C06"),
 }
 NA = {}
 
